@@ -135,7 +135,14 @@ def gen_case(rng, kind):
             stmts.append(" " * rng.randint(0, 3) + f"<{nm}> ::= {body};")
         for j in range(depth - 1):
             stmts.append(" " * rng.randint(0, 3) + f"<{names[j]}> = <{names[j + 1]}> | other{j};")
-        stmts.append(" " * rng.randint(0, 3) + f"<{names[-1]}> ::= plantedone{sep(rng, False)}plantedtwo | auto;")
+        if rng.random() < 0.5:
+            stmts.append(" " * rng.randint(0, 3) + f"<{names[-1]}> ::= plantedone{sep(rng, False)}plantedtwo | auto;")
+        else:
+            # the left neighbour is a group (or, through a definition, an expanded sequence) that *ends* in the offending
+            # literal but starts elsewhere, possibly on an earlier line: the location is that of the literal, not of the group
+            lead = rng.choice(["lead", "{{{ echo q }}}", "l1 {{{ echo q }}}"])
+            stmts.append(" " * rng.randint(0, 3) + f"<{names[-1]}> ::= ({lead}{sep(rng)}{rng.choice(['{{{ echo r }}}', '<FREE>'])}{sep(rng)}plantedone)"
+                         f"{sep(rng, False)}plantedtwo | auto;")
         expect = [("error", "Adjacent literals in expression used in a subword context", "plantedone"), ("error", None, "plantedtwo")]
         # (definitions are expanded before this check runs, so only the reference in the call variant is on the way)
         expect.append(("error", "Referenced in a subword context at", "<" + names[0] + ">"))
